@@ -70,6 +70,9 @@ type response struct {
 	Bad     []Bad            `json:"b"`
 }
 
+// StartupLimit bounds the time a worker may take before it serves its first request.
+var StartupLimit = 15 * time.Minute
+
 // MaxDeaths is the number of worker deaths/stalls after which a run stops early (exhaustive=false).
 const MaxDeaths = 24
 
@@ -277,6 +280,7 @@ type worker struct {
 	out      *bufio.Reader
 	stdin    interface{ Close() error }
 	progress *os.File
+	ready    bool // the worker has shown its first sign of life (ready mark or first input index)
 	stderr   *tailBuf
 	lines    chan []byte
 }
@@ -378,6 +382,33 @@ func (w *worker) do(from, to int, perInput time.Duration) (*response, *Bad) {
 	b, _ := json.Marshal(request{from, to})
 	_, _ = w.in.Write(append(b, '\n'))
 	_ = w.in.Flush()
+	if !w.ready {
+		// the stall clock must not run while the worker is still setting itself up (case lists,
+		// builds of seed files ...): wait for its first sign of life. A worker that never starts
+		// is an error of the harness, not a hang of the code under test.
+		start := time.Now()
+		for w.ticks() == 0 && w.inflight() < 0 {
+			select {
+			case line, ok := <-w.lines:
+				// answered (or died) before we saw the ready mark: hand the line back
+				w.ready = true
+				if !ok {
+					_ = w.cmd.Wait()
+					return nil, &Bad{Index: from, Class: classifyDeath(w.cmd, w.stderr.String()), Site: deathSite(w.stderr.String())}
+				}
+				var r response
+				if err := json.Unmarshal(line, &r); err != nil {
+					return nil, &Bad{Index: from, Class: "harness", Site: "bad worker response: " + err.Error()}
+				}
+				return &r, nil
+			case <-time.After(100 * time.Millisecond):
+			}
+			if time.Since(start) > StartupLimit {
+				return nil, &Bad{Index: from, Class: "harness", Site: fmt.Sprintf("worker not ready after %s", StartupLimit)}
+			}
+		}
+		w.ready = true
+	}
 	last := -2
 	lastTick := uint64(0)
 	lastChange := time.Now()
@@ -538,6 +569,7 @@ func serve(fn Fn) {
 		os.Exit(3)
 	}
 	tickFile = pf
+	Tick() // ready mark: set-up is over, the stall clock may run from here on
 	in := bufio.NewReaderSize(os.Stdin, 1<<16)
 	out := bufio.NewWriter(os.Stdout)
 	var pb [8]byte
